@@ -93,7 +93,13 @@ clean vs patched in two sub-processes, 1 000 to 50 000 recorded outcomes includi
 messages) and the unchanged test-suite result.  Each was confirmed (`tools/try_refac.sh`: `equiv.py`
 re-run: SAME) and the property's check was run against the patched copy: **all twenty exit 0 with no
 VIOLATION line** (`harmless/<id>/`, meta.json holds the result line); the same patches were run again after the
-statefulness audit had added the sequence streams (18 still apply to the repaired tree): again no alarm.  Two things were changed because
+statefulness audit had added the sequence streams (18 still apply to the repaired tree): again no alarm.
+Because those streams check "caller objects unmodified", "same call, same result" and process state, a second round of
+twenty rewrites was made after round 7 whose authors were asked to introduce CORRECT internal state on purpose --
+properly keyed and invalidated memos (lineage walks, prefix reverse complements, slice arithmetic, archive look-ups,
+a distance-matrix memo keyed by the matrix bytes), per-thread scratch accumulators reset in `finally`, per-call helper
+objects, constant tables, exact fast paths (110 to 290 changed lines each; `harmless2/<id>/`).  All twenty: `equiv.py`
+SAME, check exit 0, no VIOLATION line.  Two things were changed because
 of this experiment, before it was run on all twenty: the syntactic ties of five Python helpers became
 advisory (a rewrite of `chunk_slices` or `index_dtype` would otherwise have been a
 `no-failing-input-found` violation, section 0) and a translator failure is only reported against the
